@@ -176,7 +176,15 @@ func hash0Job(codec string) job {
 		}
 		cr.ops = append(cr.ops, opLine{"hash0 " + codec, "sum=" + got})
 		if got != want {
-			cr.fails = append(cr.fails, hlib.Failure{Key: "hash:" + codec + ":zero-update-calls",
+			// the key carries the value reported, so that a zero-call hasher reporting anything else than the
+			// registered quirk value (KNOWN_FINDINGS.txt) is a new, unlisted failure
+			g := got
+			if g == "" {
+				g = "none"
+			} else if len(g) > 16 {
+				g = g[:16]
+			}
+			cr.fails = append(cr.fails, hlib.Failure{Key: "hash:" + codec + ":zero-update-calls:" + g,
 				Desc:   fmt.Sprintf("%s hasher with no update call reports %s; the %s of the empty string is %s", codec, got, codec, want),
 				Replay: "cdrv: " + cmd + "\n(initialize, then checksum without any update call = the empty string split into zero pieces)"})
 		}
@@ -210,7 +218,7 @@ func decJob(e encoded, want []byte, class string, chunking string, alt int, lean
 		if members == 0 {
 			members = 1
 		}
-		var lastCmd string
+		var lastCmd, lastTrace string
 		var outDesc string
 		for m := 0; m < members; m++ {
 			cmd := strings.Join(strings.Fields(fmt.Sprintf("run %s %s digest=0 maxout=268435456 %s", e.codec, opts, hlib.Hex(rest))), " ")
@@ -220,6 +228,7 @@ func decJob(e encoded, want []byte, class string, chunking string, alt int, lean
 				status = trunc(line, 120)
 				break
 			}
+			lastTrace = res.Trace
 			if res.Status != "ok" {
 				status = res.Status
 				break
@@ -253,13 +262,22 @@ func decJob(e encoded, want []byte, class string, chunking string, alt int, lean
 				b, _ := hex.DecodeString(strings.TrimPrefix(r2.OutHex, "-"))
 				return bytes.Equal(b, want)
 			}
-			if strings.Contains(opts, "work=auto") && status == "#base:_bad_workbuf_length" && rerun(strings.Replace(opts, "work=auto", "work="+bigWork, 1)) {
+			// lazy-workbuf: the fatal status must come WITHOUT any preceding `$short workbuf` (the decoder never asked),
+			// and the identical run (same chunking) with an up-front work buffer must decode correctly.
+			if strings.Contains(opts, "work=auto") && status == "#base:_bad_workbuf_length" && !strings.Contains(lastTrace, "short_workbuf") &&
+				rerun(strings.Replace(opts, "work=auto", "work="+bigWork, 1)) {
 				cr.fails = append(cr.fails, hlib.Failure{Key: "decode:lzma-family:lazy-workbuf:bad-workbuf-length",
 					Desc: fmt.Sprintf("Wuffs %s (%s): a caller that sizes the work buffer from workbuf_len() and grows it on `$short workbuf` gets `#base: bad workbuf length` on a valid stream (%s, payload %s %d bytes): std/lzma writes output (LZMA2 uncompressed chunk / header split across reads) before it ever reports `$short workbuf`; the same stream decodes correctly with a large work buffer", e.codec, fl, e.setting, class, len(want)), Replay: replay})
 				cr.counts = append(cr.counts, "known:lazy-workbuf")
 				return cr
 			}
-			if strings.Contains(opts, "src=") && rerun(dropSrcOpt(opts)) {
+			// unflushed-dst-far-match needs BOTH a chunked source and a destination that is replaced while the stream
+			// is decoded (a match must reach before the start of the current destination buffer). The cause is only
+			// confirmed when the stream decodes correctly (a) in one piece and (b) with the SAME source chunking but one
+			// destination buffer that holds the whole output (every match then stays inside dst.history): a defect of
+			// suspension/resumption on a chunked source fails (b) and is reported under its own key.
+			if strings.Contains(opts, "src=") && !strings.HasPrefix(status, "crash") && !strings.HasPrefix(status, "io-contract") &&
+				rerun(dropSrcOpt(opts)) && rerun(oneDst(opts, len(want)+1)) {
 				cr.fails = append(cr.fails, hlib.Failure{Key: "decode:lzma-family:unflushed-dst-far-match",
 					Desc: fmt.Sprintf("Wuffs %s (%s) on a valid stream (%s, payload %s %d bytes) ends with %s / wrong bytes when the source arrives in chunks (%s): after a `$short read` the destination buffer still holds bytes of earlier calls, and a match reaching before the start of that buffer is fetched from the wrong place of the workbuf ring (std/lzma lacks the `transformed_history_count - dst.history_position()` correction that std/deflate has); the same stream decodes correctly when supplied in one piece", e.codec, fl, e.setting, class, len(want), status, chunking), Replay: replay})
 				cr.counts = append(cr.counts, "known:unflushed-dst-far-match")
@@ -341,6 +359,17 @@ func dropSrcOpt(opts string) string {
 		}
 	}
 	return strings.Join(out, " ")
+}
+
+// oneDst: opts with the destination capacity replaced by one buffer of n bytes
+func oneDst(opts string, n int) string {
+	var out []string
+	for _, f := range strings.Fields(opts) {
+		if !strings.HasPrefix(f, "dst=") {
+			out = append(out, f)
+		}
+	}
+	return strings.Join(append(out, fmt.Sprintf("dst=%d", n)), " ")
 }
 
 func firstDiff(a, b []byte) int {
